@@ -22,14 +22,19 @@ def _is_value_error(out):
 
 class MapInst:
     def __init__(self, params, axes, outputs=1, out_keys=None, extra=None):
+        self.vector = outputs == "vector"
+        if self.vector:
+            outputs = 2
         self.params, self.axes, self.outputs, self.out_keys = params, axes, outputs, out_keys
         self.names = [n for n, _ in params]
         self.extra = extra or {}
-        self.label = f"sig={sig_label(params)},mapped={axes},out={'dict' if out_keys else outputs}" + "".join(f",{a}={b}" for a, b in self.extra.items())
+        self.label = f"sig={sig_label(params)},mapped={axes},out={'dict' if out_keys else ('vector' if self.vector else outputs)}" + "".join(f",{a}={b}" for a, b in self.extra.items())
 
 
 def _outs(tier, i):
     # scalar outputs everywhere; a tuple and a dict output on a rotating subset
+    if i % 7 == 1:
+        return "vector", None  # one array-valued output leaf: mapped axes come before the function's own
     if i % 7 == 3:
         return 2, None
     if i % 7 == 5:
@@ -63,6 +68,19 @@ def _inputs(k, inst, mapped_lengths):
 
 def _check_entries(k, inst, f, out, args, shape, index_of):
     """out[idx] (leafwise) == f at the elements selected by idx"""
+    if inst.vector:
+        shp = k.shape(out)
+        k.ensures("shape[vector]", len(shp) == len(shape) + 1 and L.And(*[L.eq(a, b) for a, b in zip(shp, list(shape) + [2])]))
+        if len(shp) != len(shape) + 1:
+            return
+        for idx in k.indices(shape, name="iv_"):
+            by_name = {}
+            for n in inst.names:
+                q = index_of(n)
+                by_name[n] = k.at(args[n], (idx[q],)) if q is not None else args[n]
+            for o in range(2):
+                k.ensures(f"entry-is-function-at-elements[vector,{o}]", L.eq(k.at(out, (*idx, o)), f.spec(by_name, o)))
+        return
     leaves = [(None, out)] if not isinstance(out, (tuple, dict)) else (list(enumerate(out)) if isinstance(out, tuple) else [(i, out[key]) for i, key in enumerate(inst.out_keys)])
     if isinstance(out, tuple):
         k.ensures("pytree-structure", len(out) == inst.outputs)
@@ -88,7 +106,7 @@ def base_productmap_contract(k, inst):
     other arguments passed through; output axes in the order of `axes` with the lengths of those
     arguments; no axes -> f itself."""
     axes = inst.axes
-    f = k.absfunc("F", inst.params, inst.outputs, inst.out_keys)
+    f = k.absfunc("F", inst.params, inst.outputs, inst.out_keys, vector=inst.vector)
     lens = {n: k.int(f"n_{n}", ge=0, size=True) for n in axes}
     args = _inputs(k, inst, lens)
     h = k.call(f, list(axes))
@@ -108,7 +126,7 @@ def productmap_contract(k, inst):
     kw[variables[q]][iq] and everything else passed through, in any keyword order; duplicates in
     `variables` raise ValueError."""
     axes = inst.axes
-    f = k.absfunc("F", inst.params, inst.outputs, inst.out_keys)
+    f = k.absfunc("F", inst.params, inst.outputs, inst.out_keys, vector=inst.vector)
     lens = {n: k.int(f"n_{n}", ge=0, size=True) for n in axes}
     args = _inputs(k, inst, lens)
     h = k.call(f, list(axes))
@@ -148,7 +166,7 @@ def vmap_1d_contract(k, inst):
     'only_kwargs' gives a keyword-only function; duplicates and an invalid option raise ValueError."""
     axes = inst.axes
     cw = inst.extra["callable_with"]
-    f = k.absfunc("F", inst.params, inst.outputs, inst.out_keys)
+    f = k.absfunc("F", inst.params, inst.outputs, inst.out_keys, vector=inst.vector)
     n = k.int("n", ge=0, size=True)
     args = _inputs(k, inst, {a: n for a in axes})
     g = k.call(f, variables=list(axes), callable_with=cw)
@@ -193,7 +211,7 @@ def spacemap_contract(k, inst):
     sparse, not dense-first: h(**kw)[j][d1..dm] = f(.. sparse s -> kw[s][j]) (the joint axis FIRST);
     dense-first: h(**kw)[d1..dm][j] (the joint axis LAST); overlap or duplicates raise ValueError."""
     dense, sparse, pdf = inst.axes, inst.extra["sparse"], inst.extra["put_dense_first"]
-    f = k.absfunc("F", inst.params, inst.outputs, inst.out_keys)
+    f = k.absfunc("F", inst.params, inst.outputs, inst.out_keys, vector=inst.vector)
     lens = {x: k.int(f"n_{x}", ge=0, size=True) for x in dense}
     ns = k.int("n_sparse", ge=0, size=True) if sparse else None
     for s in sparse:
